@@ -11,6 +11,8 @@
    turn physically last and with an unknown last table of length 0..3 (mod 4), and the Go fonts shipped
    with golang.org/x/image (last table copied undecoded): k in windows around every table boundary in
    the quick tier, every k for the small files and Go Regular in the thorough tier.
+   Every public stand-alone reader (cff.Read, cmap.Decode, gtab.Read, ...) is run the same way on the
+   stream its own writer produced (cut at every k; failing from k on where it takes a reader).
    Every run is recorded as one event (sampled k also call by call) and judged by TLC against
    IOFaultTrace.tla.  A failing run is re-run alone and re-validated before it counts.
 """
@@ -33,7 +35,9 @@ MANIFEST = {
             "table data rejected, failed access never swallowed, no panic); the rules are established on the model "
             "IOFault.tla (tables decoded / copied raw / skipped; a must-fail run without the end-of-table probe), "
             "which TLC checks exhaustively for all small layouts, all k and all modes. Read files include every table "
-            "in turn as physically last table (independent re-assembly) and the shipped Go fonts.",
+            "in turn as physically last table (independent re-assembly) and the shipped Go fonts; the stand-alone readers "
+            "(cff.Read on the (*cff.Font).Write stream, header.Read, cmap/glyf/gtab/gdef/name/post/os2/head/maxp/hmtx/kern "
+            "readers) get the same enumeration on the streams their own writers produced.",
     "note": "Exhaustive over k for the files written from the corpus fonts (re-assembled variants and Go fonts: windows "
             "around table boundaries in the quick tier). A cut that removes only trailing padding may be accepted. "
             "For the failing ReaderAt the oracle is 'an access failed => error' (accesses are what the reader needs). "
@@ -54,15 +58,19 @@ INVARIANT RTruncRejected
 INVARIANT RStreamFail
 INVARIANT RIntactOK
 INVARIANT RFailNeeded
+INVARIANT SCutRejected
+INVARIANT SCutOptional
+INVARIANT SFailRejected
+INVARIANT SIntactOK
 INVARIANT Bounds
 CHECK_DEADLOCK FALSE
 """
 
 
-def _cfg(maxtables, maxlen, wmodes, rmodes, chunk, probe=True):
+def _cfg(maxtables, maxlen, wmodes, rmodes, chunk, probe=True, smax=0):
     q = lambda xs: "{%s}" % ", ".join('"%s"' % x for x in xs)
-    return ("CONSTANTS\n  MaxTables = %d\n  MaxLen = %d\n  WModes = %s\n  RModes = %s\n  Chunk = %d\n  Probe = %s\n"
-            % (maxtables, maxlen, q(wmodes), q(rmodes), chunk, "TRUE" if probe else "FALSE")) + _INV
+    return ("CONSTANTS\n  MaxTables = %d\n  MaxLen = %d\n  WModes = %s\n  RModes = %s\n  Chunk = %d\n  Probe = %s\n  SMaxLen = %d\n"
+            % (maxtables, maxlen, q(wmodes), q(rmodes), chunk, "TRUE" if probe else "FALSE", smax)) + _INV
 
 
 W3 = ["exact", "atomic", "short", "eager", "once", "eonce"]
@@ -122,18 +130,26 @@ def run(ctx):
         "a file cut inside the trailing padding of its last table may be accepted (no table data is lost)",
         "failing ReaderAt: every access that failed is taken as needed (the reader asked for it)",
         "writing the same font twice yields files of the same length (checked by the harness for every operation)",
+        "stand-alone readers (cff.Read on the stream of (*cff.Font).Write; header.Read+ReadTableBytes, cmap.Decode, "
+        "glyf.Decode, gtab.Read, gdef.Read, name.Decode, post.Read, os2.Read, head.Read, maxp.Read, hmtx.Decode, "
+        "kern.Read on the tables Font.Write / kern.Info.Encode produced): a cut strictly inside the writer's extent "
+        "must be rejected, except at legitimately optional ends: OS/2 may end after 68, 78 or 86 bytes (older "
+        "versions of the table); a loca table has no length of its own, every whole number of entries is a complete "
+        "table, so for a cut loca only 'no panic' is demanded; a container may lose its trailing padding",
     ]
     # 1. the model
     if ctx.quick():
         models = [("writers: 3 tables, lengths 0..4", _cfg(3, 4, W3, [], 3)),
                   ("readers: 2 tables, lengths 0..5", _cfg(2, 5, [], R4, 3)),
-                  ("readers: 3 tables, lengths 0..2", _cfg(3, 2, [], R4, 2))]
+                  ("readers: 3 tables, lengths 0..2", _cfg(3, 2, [], R4, 2)),
+                  ("stand-alone streams of 1..8 bytes, every set of optional ends", _cfg(1, 1, [], [], 3, smax=8))]
         bounds = {"model": "writers: 1..3 tables, lengths 0..4; readers: 1..2 tables, lengths 0..5 and 1..3 tables, "
                            "lengths 0..2; every k, every mode, every classification decoded/raw/skipped of the tables"}
     else:
         models = [("writers: 4 tables, lengths 0..5", _cfg(4, 5, W3, [], 3)),
                   ("readers: 3 tables, lengths 0..4", _cfg(3, 4, [], R4, 3)),
-                  ("readers: 4 tables, lengths 0..1", _cfg(4, 1, [], R4, 1))]
+                  ("readers: 4 tables, lengths 0..1", _cfg(4, 1, [], R4, 1)),
+                  ("stand-alone streams of 1..11 bytes, every set of optional ends", _cfg(1, 1, [], [], 4, smax=11))]
         bounds = {"model": "writers: 1..4 tables, lengths 0..5; readers: 1..3 tables, lengths 0..4 and 1..4 tables, "
                            "lengths 0..1; every k, every mode, every classification decoded/raw/skipped of the tables"}
     for label, cfg in models:
